@@ -253,6 +253,14 @@ func (c *Collection) Pull(ctx context.Context, opts ...ReadOption) <-chan *Colle
 		defer close(send)
 		emit := listen()
 
+		// held remembers, per id, the value this subscriber was last sent. Equivalence is judged against that value,
+		// not against the previous stored one: with a tolerance comparer a slow drift must be reported once it leaves the
+		// tolerance of what the subscriber holds, and a return to that value must not be.
+		var held map[string]proto.Message
+		if c.equivalence != nil {
+			held = make(map[string]proto.Message)
+		}
+
 		if len(currentValues) > 0 {
 			sort.Slice(currentValues, func(i, j int) bool {
 				return currentValues[i].id < currentValues[j].id
@@ -268,6 +276,9 @@ func (c *Collection) Pull(ctx context.Context, opts ...ReadOption) <-chan *Colle
 					LastSeedValue: i == lastIndex,
 				}
 				change = change.filter(filter)
+				if held != nil {
+					held[change.Id] = change.NewValue
+				}
 				select {
 				case <-ctx.Done():
 					return
@@ -283,8 +294,22 @@ func (c *Collection) Pull(ctx context.Context, opts ...ReadOption) <-chan *Colle
 				continue
 			}
 			change = change.filter(filter)
-			if c.equivalence != nil && c.equivalence.Compare(change.OldValue, change.NewValue) {
-				continue
+			if held != nil {
+				prev, known := held[change.Id]
+				if !known {
+					prev = change.OldValue // nothing sent for this id yet: the subscriber is taken to hold the previous value
+				}
+				if c.equivalence.Compare(prev, change.NewValue) {
+					if !known && prev != nil {
+						held[change.Id] = prev
+					}
+					continue
+				}
+				if change.NewValue == nil {
+					delete(held, change.Id)
+				} else {
+					held[change.Id] = change.NewValue
+				}
 			}
 			select {
 			case send <- change:
